@@ -13,6 +13,9 @@ Clauses
   association-set                  one association per formalized simple / linked (two) / subtype (one per subtype) relationship,
                                    with the modeled referential/identifying attribute pairs
   association-multiplicity         multiplicity and conditionality of both ends
+  association-relate-values        after relate() over an association of the built (and of the reloaded) component, every
+                                   referential attribute of the referring instance has the value of the identifying attribute
+                                   it is paired with in the model (O_REF -> O_RTIDA -> O_OIDA rows)
   association-phrases              phrases (reflexive relationships only)
   edit-changes-exactly             diff(before, after) of the built component == diff of the reference descriptions
   sql-reload                       schema file written for the component loads back to the same definitions
@@ -21,6 +24,7 @@ Clauses
 """
 import vlib.fresh_ply  # noqa: F401
 import itertools
+import json
 import os
 import random
 import shutil
@@ -53,7 +57,10 @@ def with_globals(seed_spec):
 
 
 def describe(rows, comp, derived, seed_spec):
-    return REF.describe(rows + (R.seed_rows('globals') if with_globals(seed_spec) else []), comp, derived)
+    """Reference description, or None when the named component does not exist; 'ill-formed' when an O_REF row of the model
+    lacks its O_RTIDA / O_OIDA / O_RATTR row (outside the domain of the property)."""
+    d, ok = REF.describe2(rows + (R.seed_rows('globals') if with_globals(seed_spec) else []), comp, derived)
+    return d if ok or d is None else 'ill-formed'
 
 
 def apply_op(rows, op):
@@ -113,9 +120,30 @@ def add_component(rows, name, classes):
     rows.extend(b.rows)
 
 
+def compound_key_attrs(rows):
+    """{key letters: names of the attributes that are part of an identifier of >= 2 attributes or are referential
+    attributes of a formalization with >= 2 referential attributes}."""
+    t = R.Tables(rows)
+    kl_of = dict((o['Obj_ID'], o['Key_Lett']) for o in t['O_OBJ'])
+    name_of = dict(((a['Attr_ID'], a['Obj_ID']), a['Name']) for a in t['O_ATTR'])
+    groups = {}
+    for d in t['O_OIDA']:
+        groups.setdefault(('id', d['Obj_ID'], d['Oid_ID']), []).append((d['Attr_ID'], d['Obj_ID']))
+    for d in t['O_REF']:
+        groups.setdefault(('ref', d['Obj_ID'], d['Rel_ID'], d['OIR_ID'], d['ROIR_ID']), []).append((d['Attr_ID'], d['Obj_ID']))
+    out = {}
+    for g in groups.values():
+        if len(g) >= 2:
+            for key in g:
+                if key in name_of and key[1] in kl_of:
+                    out.setdefault(kl_of[key[1]], set()).add(name_of[key])
+    return out
+
+
 def site_ops(rows, retypes, rng=None):
     """Every listed edit at every applicable site of the model."""
     ops = []
+    in_key = compound_key_attrs(rows)
     for kl in R.class_names(rows):
         order = R.attr_order(rows, kl)
         refs = set()
@@ -126,13 +154,16 @@ def site_ops(rows, retypes, rng=None):
         by_name = dict((r.get('Name'), r) for r in R._attr_rows(rows, kl))
         for nm in order:
             ops.append(['rename_attr', kl, nm, nm + '_renamed'])
+            if nm in in_key.get(kl, ()):
+                # renaming one attribute of a compound key changes its alphabetical rank among the others
+                ops.append(['rename_attr', kl, nm, 'Aaa_' + nm])
+                ops.append(['rename_attr', kl, nm, 'Zzz_' + nm])
             for ty in retypes:
                 ops.append(['retype_attr', kl, nm, ty])
             if any(r.kind == 'O_NBATTR' and r.get('Attr_ID') == by_name[nm].get('Attr_ID') for r in rows):
                 ops.append(['make_derived', kl, nm])
         if len(order) > 1:
-            perms = list(itertools.permutations(order))[1:]
-            for p in perms[:5]:
+            for p in itertools.islice(itertools.permutations(order), 1, 6):
                 ops.append(['reorder_attrs', kl, list(p)])
     for numb, end in R.rel_sites(rows):
         ops.append(['toggle', numb, end, 'Mult'])
@@ -217,6 +248,86 @@ def compare(obs, ref, out):
         out.append(dict(clause='association-multiplicity', observed=obs['associations'], required=ref['associations']))
 
 
+def relate_values(c, ref, out, where):
+    """Instances related over every association of the component: the referring instance reads, for every modeled
+    [referential attribute, identifying attribute] pair, the value of the identifying attribute of the instance it was
+    related to.  Values are fresh and distinct per attribute (booleans excepted), so a wrong pairing shows.  Which phrase
+    selects which direction is not the subject here: every phrase of the relationship is tried, the relates that the
+    component rejects are skipped, and each association has to be seen with its modeled pairs at least once."""
+    import xtuml
+    classes = ref['classes']
+    refattrs = {}
+    for a in ref['associations']:
+        refattrs.setdefault(a[1], set()).update(p[0] for p in a[7])
+    counter = [0]
+
+    def fresh(ty):
+        counter[0] += 1
+        n = counter[0]
+        return {'BOOLEAN': bool(n % 2), 'INTEGER': 1000 + n, 'REAL': 1000.5 + n, 'STRING': 's%d' % n, 'UNIQUE_ID': 1000 + n}[ty]
+
+    def phrases_of(grp):
+        return sorted(set(p for a in grp for p in (a[3], a[6])) | set(['']))
+
+    def populate(kl, depth, skip_rid=None):
+        inst = c.new(kl)
+        for nm, ty in classes[kl]:
+            if nm not in refattrs.get(kl, ()):
+                try:
+                    setattr(inst, nm, fresh(ty))
+                except Exception:
+                    pass
+        if depth < 3:
+            for a in ref['associations']:
+                if a[1] == kl and a[4] != kl and a[0] != skip_rid:
+                    other = populate(a[4], depth + 1)
+                    for p in phrases_of([a]):
+                        try:
+                            xtuml.relate(inst, other, a[0], p)
+                            break
+                        except Exception:
+                            continue
+        return inst
+
+    def reads(x, y, pairs):
+        """None: some identifying value is null (nothing to see); else whether x reads y's identifying values."""
+        vals = [(getattr(x, r, None), getattr(y, i, None)) for r, i in pairs]
+        if any(v is None for _, v in vals):
+            return None
+        return all(u == v for u, v in vals)
+
+    groups = {}
+    for a in ref['associations']:
+        groups.setdefault((a[0], a[1], a[4]), []).append(a)
+    for (rid, sk, tk), grp in sorted(groups.items()):
+        if sk not in classes or tk not in classes:
+            continue
+        seen, related, log = set(), 0, []
+        try:
+            for p in phrases_of(grp):
+                src, tgt = populate(sk, 0, rid), populate(tk, 0, rid if sk == tk else None)
+                try:
+                    xtuml.relate(src, tgt, rid, p)
+                except Exception:
+                    continue
+                related += 1
+                for i, a in enumerate(grp):
+                    got = [reads(src, tgt, a[7])] + ([reads(tgt, src, a[7])] if sk == tk else [])
+                    if any(g is None for g in got) or any(got):
+                        seen.add(i)
+                log.append(dict(phrase=p, referring=dict((r, getattr(src, r, None)) for a in grp for r, _ in a[7]),
+                                referred=dict((i, getattr(tgt, i, None)) for a in grp for _, i in a[7])))
+        except Exception:
+            continue     # instances of these classes cannot be created here (not the subject of this clause)
+        if not related:
+            continue
+        distinguishable = len(grp) == 1 or all(a[3] != a[6] for a in grp)
+        missing = [a for i, a in enumerate(grp) if i not in seen]
+        if missing and (distinguishable or len(missing) == len(grp)):
+            out.append(dict(clause='association-relate-values', observed=dict(component=where, relates=log),
+                            required=dict(pairs=[[a[0], a[1], a[4], a[7]] for a in missing])))
+
+
 def in_domain(ref):
     """Every attribute named by an identifier or by an association end is an attribute of the built class.  Otherwise (a
     derived attribute that was not requested, or an attribute of unsupported type, used as key) the property does not
@@ -231,6 +342,15 @@ def in_domain(ref):
             if sk not in names.get(a[1], set()) or tk not in names.get(a[4], set()):
                 return False
     return True
+
+
+_BEFORE = {}
+
+
+def _remember(key, obs, ref):
+    if len(_BEFORE) >= 32:
+        _BEFORE.pop(next(iter(_BEFORE)))
+    _BEFORE[key] = (obs, ref)
 
 
 def run_case(case):
@@ -254,8 +374,17 @@ def run_case(case):
         observed, refs = [], []
         for i, st in enumerate(states):
             last = i == len(states) - 1
+            use_api = api if last else ('mk' if api in ('load', 'cli') else api)
+            if not last:
+                # the state before the last edit is shared by many cases: its observation is kept (per process)
+                memo_key = json.dumps([case['seed'], script[:-1], comp, derived, use_api], sort_keys=True)
+                if memo_key in _BEFORE:
+                    o, r = _BEFORE[memo_key]
+                    observed.append(o)
+                    refs.append(r)
+                    continue
             ref = describe(st, comp, derived, case['seed'])
-            if ref is not None and not in_domain(ref):
+            if ref is not None and (ref == 'ill-formed' or not in_domain(ref)):
                 if last:
                     return None
                 ref = None
@@ -263,8 +392,9 @@ def run_case(case):
                 # the named component does not exist in this state (before add_component): nothing to compare
                 observed.append(None)
                 refs.append(None)
+                if not last:
+                    _remember(memo_key, None, None)
                 continue
-            use_api = api if last else ('mk' if api in ('load', 'cli') else api)
             try:
                 c = build(st, comp, derived, use_api, tmp, with_globals(case['seed']))
             except BaseException as e:
@@ -276,6 +406,7 @@ def run_case(case):
             observed.append(obs)
             refs.append(ref)
             if not last:
+                _remember(memo_key, obs, ref)
                 continue
             if rest:
                 out.append(dict(clause='sql-reload', observed='%d characters of the serialized schema are not CREATE TABLE/ROP/INDEX' % rest,
@@ -303,6 +434,10 @@ def run_case(case):
                 out.append(dict(clause='sql-reload', observed=dict(file=REF.diff(obs, d1) if isinstance(d1, dict) else d1,
                                                                    reloaded=REF.diff(obs, d2) if isinstance(d2, dict) else d2),
                                 required='same definitions as the built component'))
+            # instances are created last: the schema file above is written for the empty component
+            relate_values(c, ref, out, 'built')
+            if isinstance(d2, dict):
+                relate_values(c2, ref, out, 'reloaded schema')
         if len(states) == 2 and observed[0] is not None and observed[1] is not None and api != 'load':
             do, dr = REF.diff(observed[0], observed[1]), REF.diff(refs[0], refs[1])
             if do != dr:
@@ -360,7 +495,7 @@ def real_cases(depth):
       bound='tests/resources/Simple_Model.xtuml and Globals.xtuml; every single edit (rename, retype to 11 types, reorder, derive, '
             'toggle Mult/Cond, phrase, 5 row orders, added component) at every site x {whole, Comp} x {derived off, on}; '
             'thorough: every pair of edits; non-trivial = every identifier/association key is an attribute of the built class',
-      shards=6, weight=3)
+      shards=4, weight=3)
 def real_models(ctx):
     for i, case in enumerate(real_cases(1 if ctx.quick else 2)):
         if i % ctx.nshards != ctx.shard:
@@ -389,6 +524,9 @@ def synth_cases(quick, rng_seed):
         rng = random.Random('c14/synth/%s/%d' % (rng_seed, i))
         d = S.random_diagram(rng)
         d['layout'] = rng.choice(['L0', 'L1', 'L2', 'L3', 'L4'])
+        if i % 2:
+            # every other diagram: identifiers of 1-3 attributes, renamed referential attributes, O_REF ... storage orders
+            d = S.random_compound(rng, d)
         if not S.well_formed(d):
             continue
         comp = rng.choice([None] + S.components_of(d['layout']))
@@ -409,8 +547,10 @@ def synth_cases(quick, rng_seed):
       bound='class diagrams with <=3 classes and <=3 relationships: every one-relationship shape (simple, reflexive, linked, '
             'reflexive linked, subtype with 1-2 subtypes) x 16 Mult/Cond combinations x 5 package/component layouts x '
             '{whole, each component} x derived on/off (exhaustive); plus 400 (quick) / 6000 (thorough) seeded random diagrams '
-            'with attributes of 10 types, second identifiers, derived attributes and a script of 0-2 edits',
-      shards=6, weight=3)
+            'with attributes of 10 types, second identifiers, derived attributes and a script of 0-2 edits; every other random '
+            'diagram with identifiers of 1-3 attributes, referential attributes named keep / by a permutation of the '
+            'alphabetical ranks, and reversed / rotated / swapped storage order of the O_REF, O_RTIDA, O_OIDA, O_RATTR, O_ATTR rows',
+      shards=5, weight=3)
 def synthesised(ctx):
     for i, case in enumerate(synth_cases(ctx.quick, ctx.seed)):
         if i % ctx.nshards != ctx.shard:
@@ -421,6 +561,74 @@ def synthesised(ctx):
         check_case(ctx, case)
     else:
         ctx.exhausted = True
+
+
+STORES = [{}, {'O_REF': 'rev'}, {'O_REF': 'rot'}, {'O_RTIDA': 'rev'}, {'O_OIDA': 'rev', 'O_REF': 'swap'},
+          {'O_ATTR': 'rev', 'O_RATTR': 'rot', 'O_RTIDA': 'swap'}]
+
+
+def compound_cases(quick):
+    """Compound identifiers (2 and 3 attributes) formalised by every relationship kind x naming of the referential attributes
+    (keep / every permutation of the alphabetical ranks) x storage orders of the key rows; then one edit: renames that change
+    the alphabetical rank of one key attribute, reversed modeled attribute order of a referring class, whole-file row orders."""
+    k = 0
+    for d in S.compound_key_diagrams():
+        for layout in (['L0'] if quick else ['L0', 'L1', 'L3']):
+            dd = dict(d, layout=layout)
+            comps = [None] + S.components_of(layout)
+            for store in STORES:
+                k += 1
+                api = 'cli' if k % 40 == 7 else 'load' if k % 40 == 27 else ('mk', 'mk', 'build', 'mk')[k % 4]
+                yield dict(seed=['synth', dict(dd, store=store)], script=[], comp=comps[k % len(comps)], derived=False, api=api)
+            rows = S.build(dd)
+            ops = site_ops(rows, [])
+            renames = [o for o in ops if o[0] == 'rename_attr' and o[3][:4] in ('Aaa_', 'Zzz_')]
+            if quick:
+                # renaming matters most where the two alphabetical orders still agree
+                agree = all(m in ('keep', 0) for m in d['naming'].values())
+                renames = [o for j, o in enumerate(renames) if (j + k) % (2 if agree else 6) == 0]
+            else:
+                renames += [o for o in ops if o[0] == 'rename_attr' and o[3].endswith('_renamed')]
+            edits = renames + ([[['reverse_rows']], [['permute_rows', k % 4]]][k % 2] if quick else
+                               [['reverse_rows'], ['permute_rows', 0], ['permute_rows', 1]])
+            in_key = sorted(compound_key_attrs(rows))
+            for kl in ([in_key[k % len(in_key)]] if quick else in_key):
+                order = R.attr_order(rows, kl)
+                edits.append(['reorder_attrs', kl, order[::-1]])
+                if not quick:
+                    edits.append(['reorder_attrs', kl, order[1:] + order[:1]])
+            if not quick:
+                edits += [o for o in ops if o[0] in ('toggle', 'phrase')]
+            for op in edits:
+                k += 1
+                yield dict(seed=['synth', dd], script=[op], comp=comps[k % len(comps)], derived=False, api=('mk', 'build')[k % 2])
+
+
+@item('compound-keys', stands_in_for=['bridgepoint.ooaofooa._get_related_attributes', 'bridgepoint.ooaofooa.mk_simple_association',
+                                      'bridgepoint.ooaofooa.mk_linked_association', 'bridgepoint.ooaofooa.mk_subsuper_association',
+                                      'xtuml.persist.serialize_association'],
+      bound='identifiers of 2 and 3 attributes formalised by simple, reflexive, linked (both ends), reflexive linked and subtype '
+            '(1-2 subtypes) relationships, referred through subtype chains and link classes (10 shapes); referential attributes '
+            'named as the identifying ones or by every permutation of the alphabetical ranks (3 / 7 modes); 6 storage orders of '
+            'the O_REF / O_RTIDA / O_OIDA / O_RATTR / O_ATTR rows; one edit: rank-changing rename of a key attribute (quick: '
+            'every second where the two alphabetical orders agree, else every sixth), reversed attribute order of a class, '
+            'reversed / permuted file; thorough: 3 layouts, all renames, toggles, phrases; pairs compared in the built component, '
+            'in the reloaded schema and through relate()',
+      shards=4, weight=2)
+def compound_keys(ctx):
+    for i, case in enumerate(compound_cases(ctx.quick)):
+        if i % ctx.nshards != ctx.shard:
+            continue
+        if ctx.expired():
+            ctx.exhausted = False
+            break
+        check_case(ctx, case)
+    else:
+        ctx.exhausted = True
+    if ctx.shard == 0:
+        ctx.note('not generated: relationships formalised over a second identifier (I2), identifiers of more than 3 base '
+                 'attributes, referential attributes combined over several relationships, attribute names that start with '
+                 'R<digits> (the written schema does not load back: known finding K2a)')
 
 
 LAYER_BASES = ['boolean', 'integer', 'real', 'string', 'unique_id', 'My_Enum', 'date', 'timestamp', 'inst_ref<Object>']
@@ -479,7 +687,7 @@ def layer_cases(quick):
             'inst_ref<Object>), the layers global and/or in a component, as type of an identifying attribute that referential '
             'attributes refer to and of a new attribute: Simple_Model (whole / Comp); 5 synthesised relationship shapes x 5 '
             'layouts (quick: every fourth stack); non-trivial = every identifier/association key is an attribute of the built class',
-      shards=3, weight=1)
+      shards=2, weight=1)
 def type_layers(ctx):
     for i, case in enumerate(layer_cases(ctx.quick)):
         if i % ctx.nshards != ctx.shard:
